@@ -319,14 +319,8 @@ def add_keyword_interning(pack):
     c.ensures("the intern table invariant is maintained", lambda a: table_inv(a.eng, a.post.st, a.post.glob("basilisp.lang.keyword", "_INTERN")))
 
     def rp_kw(m, ctx, ob):
-        return (
-            "from basilisp.lang import keyword as kw\n"
-            "b = kw.keyword('c14-b')\n"
-            "foreign = kw.hash_kw('c14-b')   # a number that another process (other hash seed) computed for :c14-a\n"
-            "a = kw.keyword_from_hash(foreign, 'c14-a')\n"
-            "print('keyword_from_hash(<foreign hash>, \"c14-a\") ->', a, '; keyword(\"c14-a\") is it:', kw.keyword('c14-a') is a)\n"
-            "print('REPRODUCED' if (a.name != 'c14-a' or kw.keyword('c14-a') is not a) else 'not reproduced')\n"
-        )
+        return KW_REPLAY
+
 
     c.replay(rp_kw)
     c.replay_without_model = True
@@ -432,4 +426,32 @@ r2 = subprocess.run([sys.executable, "-c", prog], capture_output=True, text=True
 print("first load :", r1.stdout.strip().splitlines()[-1:] , r1.stderr[-200:])
 print("cached load:", r2.stdout.strip().splitlines()[-2:], r2.stderr[-200:])
 print("REPRODUCED" if "BUMPS 2" in r2.stdout else "not reproduced")
+'''
+
+
+KW_REPLAY = r'''
+from basilisp.lang import keyword as kw
+problems = []
+# (1) the foreign number happens to be the hash of another interned keyword
+b = kw.keyword('c14-b')
+a = kw.keyword_from_hash(kw.hash_kw('c14-b'), 'c14-a')
+if a.name != 'c14-a' or kw.keyword('c14-a') is not a:
+    problems.append('occupied slot: got %r, keyword("c14-a") is it: %s' % (a, kw.keyword('c14-a') is a))
+# (2) the foreign number is in no slot: the keyword must still be THE object for that name
+free = 1
+while kw._INTERN.val_at(free) is not None:
+    free += 1
+c = kw.keyword_from_hash(free, 'c14-c')
+if c.name != 'c14-c' or kw.keyword('c14-c') is not c:
+    problems.append('free slot: keyword_from_hash(<foreign>, "c14-c") and keyword("c14-c") are two objects')
+# (3) an already interned keyword asked for with a foreign number
+d = kw.keyword('c14-d')
+free += 1
+while kw._INTERN.val_at(free) is not None:
+    free += 1
+if kw.keyword_from_hash(free, 'c14-d') is not d:
+    problems.append('already interned keyword: a second object was created')
+for p in problems:
+    print(p)
+print('REPRODUCED' if problems else 'not reproduced')
 '''
